@@ -168,6 +168,18 @@ CHECKS["C17"] = dict(
     technique="TLA+ rewriting machine explored exhaustively by TLC, metamorphic conformance validated by TLC",
     design="7/C17")
 
+CHECKS["C20"] = dict(
+    category="model_checking",
+    text="Store.tla models the store as a map plus synthesised special / positional parameters, with the assigning expansions, "
+         "pattern removal on positional parameters, the arithmetic assignment operators, and faulting operations that leave the "
+         "store unchanged.  TLC enumerates every history of Depth operations over a universe of 15 names (NoUnset off and on), "
+         "random long histories, and checks the model-level invariants; every history is replayed into a real ExecEnv and "
+         "StoreCheck re-runs the model along the recorded operations, comparing result, Get of every name, the Walk set and "
+         "intactness of Args/Opts/Aliases/AST after every step.",
+    note="Trusted: Store.tla's operation semantics, the driver's mapping of operations to API calls (harness/cmd/driver/store.go), TLC.",
+    technique="TLA+ state machine; histories generated by TLC, replayed into the real object, every step validated by TLC",
+    design="7/C20")
+
 NOT_APPLICABLE = {}
 
 ALL = ["C%02d" % i for i in range(1, 21)]
